@@ -5,7 +5,7 @@ import z3
 
 from . import vals as V
 from .vals import Val
-from .engine import (Z, PyTuple, RefV, ListBox, SeqBox, AbsBox, ObjBox, LambdaV, FuncV, ClassV, BuiltinV,
+from .engine import (Z, PyTuple, RefV, ListBox, SeqBox, AbsBox, ObjBox, LambdaV, GenV, FuncV, ClassV, BuiltinV,
                      ModuleV, SpecFuncV, Exc, Unsupported, State, Obligation, is_exc, assigned_names)
 from .exec import Executor, T, LIB_KIND, BUILTIN_TYPES
 
@@ -215,7 +215,21 @@ class Engine(Executor):
         raise Unsupported("type() of %s" % type(v).__name__, node)
 
     def bi_hasattr(self, args, kwargs, s, node):
-        raise Unsupported("hasattr", node)
+        v, name = args
+        lit = self.concrete_str(name)
+        if lit is None:
+            raise Unsupported("hasattr with a symbolic name", node)
+        if isinstance(v, Z):
+            owners = self.classes_with_attr(lit)
+            t = v.t
+            r = z3.Or(z3.And(V.is_Ref(t), z3.Or([V.kind_of(V.get_rid(t)) == V.kind_id(c) for c in owners] or [T(False)])),
+                      V.has_attr(t, z3.StringVal(lit)))
+            return [(s, Z(V.VBool(r), "bool"))]
+        if isinstance(v, RefV) and isinstance(s.store[v.ref], ObjBox):
+            box = s.store[v.ref]
+            ci = self.P.find_class(box.cls)
+            return [(s, Z(V.mk(lit in box.fields or (ci is not None and (lit in ci.methods or lit in self.classes_with_attr(lit) and ci.name in self.classes_with_attr(lit)))), "bool"))]
+        raise Unsupported("hasattr on %s" % type(v).__name__, node)
 
     # -- regex, literal_eval (assumed external contracts) -----------------------
     def bi_re_compile(self, args, kwargs, s, node):
@@ -293,6 +307,22 @@ class Engine(Executor):
     def bi_re_search(self, args, kwargs, s, node):
         p, t = args[0].t, args[1].t
         return [(s, Z(V.VBool(V.re_search(V.get_s(p), V.get_s(t))), "bool"))]
+
+    def bi_seg_count(self, args, kwargs, s, node):
+        v = args[0]
+        if isinstance(v, RefV) and isinstance(s.store[v.ref], ObjBox) and s.store[v.ref].ident is not None:
+            n = V.seg_count(s.store[v.ref].ident)
+            s.assume(n >= 0)
+            self.assumptions.add("relational fact about the parser (validated natively by rtc/c08+c14 on every run): the escaped and the "
+                                 "unescaped parse of one path text have the same number of segments = seg_count(path)")
+            return [(s, Z(V.VInt(n), "int"))]
+        raise Unsupported("seg_count of a non-symbolic path", node)
+
+    def bi_seg_type(self, args, kwargs, s, node):
+        v, idx = args
+        if isinstance(v, RefV) and isinstance(s.store[v.ref], ObjBox) and s.store[v.ref].ident is not None and isinstance(idx, Z):
+            return [(s, Z(V.seg_type(s.store[v.ref].ident, V.to_int(idx.t))))]
+        raise Unsupported("seg_type of a non-symbolic path", node)
 
     def bi_is_exact(self, args, kwargs, s, node):
         return [(s, Z(V.VBool(V.exact(args[0].t)), "bool"))]
@@ -430,15 +460,27 @@ class Engine(Executor):
                     out.append((s3, y if y is not None else Z(V.VStr(V.fresh("replace_all", V.S)), "str")))
                 self.assumptions.add("str.replace result is an unconstrained str (replace-all is not encoded)")
             elif meth == "split":
-                if len(args) != 1 or not isinstance(args[0], Z):
-                    raise Unsupported("str.split without a separator", node)
+                if len(args) not in (1, 2) or not isinstance(args[0], Z) or (len(args) == 2 and self.concrete_int(args[1]) != 1):
+                    raise Unsupported("str.split without a separator / with maxsplit other than 1", node)
                 for (s3, y) in self.need(s2, z3.And(self.isk(args[0], "str"), z3.Length(V.get_s(args[0].t)) > 0), "ValueError", node, "split(): non-empty str separator"):
                     if y is not None:
                         out.append((s3, y))
                     else:
-                        parts = V.fresh("split", V.SeqStr)
-                        s3.assume(z3.Length(parts) >= 1)
-                        out.append((s3, s3.alloc(SeqBox(parts, "str", "list"))))
+                        if len(args) == 2:
+                            # maxsplit=1: [head, tail] with text == head + sep + tail when the separator occurs, else [text]
+                            sep = V.get_s(args[0].t)
+                            yes, no = self.branch(s3, z3.Contains(sv, sep), node)
+                            if yes is not None:
+                                p0, p1 = V.fresh("split_head", V.S), V.fresh("split_tail", V.S)
+                                yes.assume(sv == z3.Concat(p0, sep, p1))
+                                yes.assume(z3.Not(z3.Contains(p0, sep)))
+                                out.append((yes, yes.alloc(ListBox([Z(V.VStr(p0), "str"), Z(V.VStr(p1), "str")], "str"))))
+                            if no is not None:
+                                out.append((no, no.alloc(ListBox([Z(V.VStr(sv), "str")], "str"))))
+                        else:
+                            parts = V.fresh("split", V.SeqStr)
+                            s3.assume(z3.Length(parts) >= 1)
+                            out.append((s3, s3.alloc(SeqBox(parts, "str", "list"))))
             else:
                 raise Unsupported("str.%s" % meth, node)
         return out
@@ -655,7 +697,11 @@ class Engine(Executor):
     def check_call_pre(self, c, fi, args, kwargs, s, node):
         self.apply_contract(c, fi, args, kwargs, s, node, pre_only=True)
 
-    def apply_contract(self, c, fi, args, kwargs, s, node, pre_only=False):
+    def apply_contract(self, c, fi, args, kwargs, s, node, pre_only=False, from_gen=False):
+        if fi.is_generator and not pre_only and not from_gen:
+            # calling a generator function runs nothing: its contract applies when it is iterated
+            env, pend = self.bind_args(fi, args, kwargs, s, node)
+            return [(s, GenV(c, fi, (args, kwargs), node))]
         env, pend = self.bind_args(fi, args, kwargs, s, node)
         for (n, dexpr) in pend:
             saved = self.cur_fi
@@ -668,8 +714,13 @@ class Engine(Executor):
                 raise Unsupported("default value of %s" % n, node)
             env[n] = r[0][1]
         # K5: callee pre-conditions (type pre-conditions first)
+        kwbag = None
+        if fi.node.args.kwarg is not None and isinstance(env.get(fi.node.args.kwarg.arg), tuple):
+            kwbag = env[fi.node.args.kwarg.arg][1]
         for pname, ann in c.params.items():
             v = env.get(pname)
+            if v is None and kwbag is not None and pname.startswith("kw_"):
+                v = kwbag.get(pname[3:])
             if isinstance(v, Z):
                 cst, _ = self.constraint_of_annotation(ast.parse(ann, mode="eval").body, v.t)
                 if cst is not None:
@@ -706,7 +757,18 @@ class Engine(Executor):
             s.ghost["events"] = list(s.ghost.get("events", [])) + [r[0][1]]
         # result
         ret_ann = c.opts.get("returns")
-        if c.opts.get("pure") and not c.pure_fn:
+        if c.opts.get("len_fn") and ret_ann:
+            res = self.fresh_of_annotation(ret_ann, "ret_%s_%d" % (fi.name, len(self.obligations)), s, node)
+            selfv = env.get("self")
+            if isinstance(res, RefV) and isinstance(s.store[res.ref], AbsBox) and isinstance(selfv, RefV) \
+                    and isinstance(s.store[selfv.ref], ObjBox) and s.store[selfv.ref].ident is not None:
+                n = getattr(V, c.opts["len_fn"])(s.store[selfv.ref].ident)
+                s.assume(n >= 0)
+                s.store[res.ref].length = n
+                if c.opts.get("result_elem_inv"):
+                    s.store[res.ref].elem_inv = c.opts["result_elem_inv"]
+                    s.store[res.ref].owner = selfv.ref
+        elif c.opts.get("pure") and not c.pure_fn:
             # deterministic, effect-free callee: result is an uninterpreted function of its arguments
             names_ = [a.arg for a in fi.node.args.args]
             zs = [self.to_z(env[n_], s, node).t for n_ in names_]
@@ -758,6 +820,7 @@ class Engine(Executor):
                     ln = V.fresh("mod_%s_len" % pname, V.I)
                     s.assume(ln >= 0)
                     box.length = ln
+                    box.version = getattr(box, "version", 0) + 1
         env2["result"] = res
         for en in c.ensures:
             nxt = []
@@ -766,6 +829,19 @@ class Engine(Executor):
                     s2.assume(b)
                     nxt.append(s2)
             states = nxt
+        if c.opts.get("elem_fact"):
+            ef = c.opts["elem_fact"]
+            target = env.get(ef["param"])
+            if isinstance(target, Z):
+                for st in states:
+                    e3 = dict(env2)
+                    if kwbag is not None:
+                        for k_, v_ in kwbag.items():
+                            e3["kw_" + k_] = v_
+                    for d_ in fi.node.body:
+                        pass
+                    st.flags = dict(st.flags)
+                    st.flags["elem_facts"] = tuple(st.flags.get("elem_facts", ())) + ((V.get_rid(target.t), ef["fact"], e3),)
         for st in states:
             out.append((st, res))
         for cls in c.raises:
@@ -791,6 +867,15 @@ class Engine(Executor):
         for (s, it) in self.ev_iter(stmt.iter, st):
             if is_exc(it):
                 out.append((s, ("raise", it)))
+                continue
+            if isinstance(it, GenV):
+                # iterating a contracted generator: its pre-conditions are checked here, the exceptions its
+                # contract allows may surface during the iteration, its elements are abstract
+                for (s2, r) in self.apply_contract(it.contract, it.fi, it.env[0], it.env[1], s, it.node, from_gen=True):
+                    if is_exc(r):
+                        out.append((s2, ("raise", r)))
+                    else:
+                        out.extend(self.loop_by_invariant(stmt, ("gen", [it]), s2))
                 continue
             items = None if isinstance(it, tuple) else self.concrete_iter(it, s)
             if items is not None:
@@ -842,6 +927,11 @@ class Engine(Executor):
             if kind == "reversed":
                 n, el, facts = self.iter_desc(a[0], s, stmt, tag)
                 return n, (lambda k, s_: el(n - 1 - k, s_)), facts
+            if kind == "gen":
+                g = a[0]
+                n = z3.Int("gen_len!%s" % tag)
+                ann = g.contract.opts.get("yields")
+                return n, (lambda k, s_: self.fresh_of_annotation(ann, "yielded_%s" % tag, s_, stmt)), [n >= 0]
             if kind.startswith("dict."):
                 d = a[0]
                 if not isinstance(d, Z):
@@ -872,9 +962,13 @@ class Engine(Executor):
             ok = z3.Or(V.is_Str(t), z3.And(V.is_Ref(t), z3.Or(
                 [V.kind_of(rid) == V.kind_id(k) for k in ("list", "dict", "set", "tuple", "CommentedSet", "deque")])))
 
-            def el(k, s_, t=t, rid=rid, isdict=isdict):
-                return Z(z3.If(V.is_Str(t), V.VStr(z3.SubString(V.get_s(t), k, 1)),
-                               z3.If(isdict, V.map_key_at(rid, k), V.seq_item(rid, k))))
+            ehint = ("lib", "mergetuple") if it.hint == ("lib", "mergelist") else None
+
+            def el(k, s_, t=t, rid=rid, isdict=isdict, ehint=ehint):
+                zv = Z(z3.If(V.is_Str(t), V.VStr(z3.SubString(V.get_s(t), k, 1)),
+                             z3.If(isdict, V.map_key_at(rid, k), V.seq_item(rid, k))), ehint)
+                self.assume_elem_facts(t, zv, s_, stmt)
+                return zv
             n2 = z3.If(V.is_Str(t), z3.Length(V.get_s(t)), n)
             return n2, el, [V.seq_len(rid) >= 0, V.map_len(rid) >= 0, ("need", ok, "TypeError", "iteration over an iterable value")]
         if isinstance(it, RefV):
@@ -1156,13 +1250,56 @@ class Engine(Executor):
         return results
 
     def names_read_after(self, loop_stmt):
-        """Names loaded anywhere in the function outside this loop (over-approximation of 'read later')."""
-        inside = {id(n) for n in ast.walk(loop_stmt)}
-        reads = set()
-        for n in ast.walk(self.cur_fi.node):
-            if isinstance(n, ast.Name) and isinstance(n.ctx, ast.Load) and id(n) not in inside:
-                reads.add(n.id)
-        return reads
+        """Names that may be read after this loop before being re-bound: loads in the statements that follow
+        the loop in its own block and in every enclosing block (a whole enclosing loop counts, since the next
+        iteration follows), minus names that a following `for` re-binds as its target."""
+        following = []
+
+        def visit(stmts, enclosing_loops):
+            for i, st in enumerate(stmts):
+                if st is loop_stmt:
+                    following.extend(stmts[i + 1:])
+                    following.extend(enclosing_loops)
+                    return True
+                for field in ("body", "orelse", "finalbody"):
+                    sub = getattr(st, field, None)
+                    if isinstance(sub, list) and sub and isinstance(sub[0], ast.stmt):
+                        enc = enclosing_loops + ([st] if isinstance(st, (ast.For, ast.While)) else [])
+                        if visit(sub, enc):
+                            if not isinstance(st, (ast.For, ast.While)):
+                                following.extend(stmts[i + 1:])
+                            else:
+                                following.extend(stmts[i + 1:])
+                            return True
+                for h in getattr(st, "handlers", []) or []:
+                    if visit(h.body, enclosing_loops):
+                        following.extend(stmts[i + 1:])
+                        return True
+            return False
+        visit(self.cur_fi.node.body, [])
+        reads, rebound = set(), set()
+        first = {}
+        inside = {id(x) for x in ast.walk(loop_stmt)}
+        for st in following:
+            if st is loop_stmt:
+                continue
+            for n in ast.walk(st):
+                if isinstance(n, ast.Name) and id(n) not in inside:
+                    pos = (n.lineno, n.col_offset)
+                    # a for-target is bound before its loop body reads it; an assignment's target after its value
+                    if isinstance(n.ctx, ast.Load):
+                        reads.add(n.id)
+                    if n.id not in first or pos < first[n.id][0]:
+                        first[n.id] = (pos, isinstance(n.ctx, ast.Store))
+            for n in ast.walk(st):
+                if isinstance(n, ast.For) and id(n) not in inside:
+                    for t in ast.walk(n.target):
+                        if isinstance(t, ast.Name):
+                            rebound.add(t.id)
+        for nm, (pos, is_store) in first.items():
+            if is_store:
+                rebound.add(nm)
+        return reads - rebound
 
     # ================================================================ verify one function
     def verify(self):
